@@ -125,6 +125,7 @@ impl Facts<'_> {
     }
     fn input_value(&mut self, t: &str, f: &str, a: &str, what: &str, iv: &InputValueDefinition) {
         self.plain(t, f, a, what, &ty_text(&iv.ty.node));
+        self.plain(t, f, a, "ref", base_name(&iv.ty.node));
         self.docs(t, f, a, &iv.description, &iv.directives);
         self.default(t, f, a, &iv.default_value);
     }
@@ -132,6 +133,7 @@ impl Facts<'_> {
         for fd in fields {
             let f = fd.node.name.node.as_str();
             self.plain(t, f, "", "field", &ty_text(&fd.node.ty.node));
+            self.plain(t, f, "", "ref", base_name(&fd.node.ty.node));
             self.docs(t, f, "", &fd.node.description, &fd.node.directives);
             for arg in &fd.node.arguments {
                 self.input_value(t, f, arg.node.name.node.as_str(), "arg", &arg.node);
@@ -148,6 +150,14 @@ fn screaming(s: &str) -> String {
         out.push(c.to_ascii_uppercase());
     }
     out
+}
+
+/// The named type a type reference is built on (for the closure rule).
+fn base_name(t: &Type) -> &str {
+    match &t.base {
+        BaseType::Named(n) => n.as_str(),
+        BaseType::List(inner) => base_name(inner),
+    }
 }
 
 fn ty_text(t: &Type) -> String {
@@ -255,6 +265,7 @@ fn main() {
                         o["unlocated"] = json!(unlocated);
                     }
                 }
+                if std::env::var("VERIF_DUMP").is_ok() { eprintln!("{text}"); }
                 o["sdl"] = json!(text);
             }
         }
